@@ -1368,4 +1368,8 @@ def controls(repo):
     out.append(('dms-dec-factor', text_variant(repo, 'geodepy/angles.py', "            return -(self.degree + (self.minute / 60) + (self.second / 3600))",
                                              "            return -(self.degree + (self.minute / 60) + (self.second / 360))"), 'DMSAngle.dec::sign'))
     out.append(('gon-composition', text_variant(repo, 'geodepy/angles.py', "    return dec2hp(gon2dec(gon))", "    return dec2hp(gon)"), 'gon2hp'))
+    # minutes of a negated DMS angle left positive: only zero-degree angles with whole minutes show it
+    out.append(('neg-minutes', text_variant(repo, 'geodepy/angles.py', "            return DMSAngle(-self.degree, -self.minute, -self.second)", "            return DMSAngle(-self.degree, self.minute, -self.second)"), 'value-table'))
+    # the number of decimals chosen once for the whole array
+    out.append(('places-per-array', text_variant(repo, 'geodepy/angles.py', "    places = 12 + (mag < 512)\n", "    places = 13 if (mag < 512).all() else 12\n"), 'validation-places'))
     return out
